@@ -303,15 +303,16 @@ theorem C14_spec_holds (enabled : Bool) (support : Support) (translate : List UI
 
 /-! ### Instantiation at the regenerated profile table and constants -/
 
-/-- The model's lookup is the compiled `Factory.GetAnthropicSupport` on every endpoint type a
-    configuration can name (profile names, routing prefixes, `auto`, unknown spellings). -/
+/-- The model's lookup (`genSupport`) is, by construction, the compiled `Factory.GetAnthropicSupport`
+    evaluated on the raw type string. -/
 theorem gen_lookup_is_the_code :
     ∀ row ∈ Olla.Gen.Profiles.endpointTypes, nativeBy genSupport row.1 = row.2.2.1 := by decide
 
 /-- The raw lookup the handler performs answers "native" only for endpoint types whose own
     (alias-resolved) profile declares native Anthropic support — so `C14_spec_holds`'s hypothesis holds
-    for the shipped profiles. (The converse fails: `dmr`, `lmstudio`, `lm_studio` name native profiles
-    but are looked up by their raw spelling and therefore always translated — safe direction.) -/
+    for the shipped profiles. (On the pinned tree the converse fails: `dmr`, `lmstudio`, `lm_studio` name
+    native profiles but are looked up by their raw spelling and therefore always translated — the safe
+    direction; see `Olla.Model.Passthrough.aliasSpellingsNotRecognised`.) -/
 theorem gen_raw_lookup_sound :
     ∀ row ∈ Olla.Gen.Profiles.endpointTypes, row.2.2.1 = true → row.2.2.2.1 = true := by decide
 
@@ -353,17 +354,21 @@ theorem C14_spec_holds_gen (enabled : Bool) (translate : List UInt8 → List UIn
   apply gen_raw_lookup_sound row hrow
   rw [← gen_lookup_is_the_code row hrow, hty]; exact hn
 
-/-! ### Non-vacuity -/
+/-! ### Non-vacuity (with a hand-written lookup, so that a retuned profile cannot break an example) -/
 
-example : decideMode true [⟨0, "openai"⟩, ⟨1, "vllm"⟩, ⟨2, "ollama"⟩] genSupport = .passthrough [⟨1, "vllm"⟩, ⟨2, "ollama"⟩] := by decide
-example : decideMode false [⟨0, "openai"⟩, ⟨1, "vllm"⟩] genSupport = .translate [⟨0, "openai"⟩, ⟨1, "vllm"⟩] := by decide
-example : decideMode true [⟨0, "openai"⟩, ⟨1, "sglang"⟩] genSupport = .translate [⟨0, "openai"⟩, ⟨1, "sglang"⟩] := by decide
--- raw lookup: the alias spelling of a native profile is not recognised
-example : decideMode true [⟨0, "lmstudio"⟩, ⟨1, "dmr"⟩] genSupport = .translate [⟨0, "lmstudio"⟩, ⟨1, "dmr"⟩] := by decide
-example : decideMode true [⟨0, "lm-studio"⟩, ⟨1, "docker-model-runner"⟩] genSupport = .passthrough [⟨0, "lm-studio"⟩, ⟨1, "docker-model-runner"⟩] := by decide
+private def exSupport : Support := fun t =>
+  if t == "vllm" || t == "ollama" then some (true, "/v1/messages")
+  else if t == "declared-off" then some (false, "/v1/messages") else none
+
+example : decideMode true [⟨0, "openai"⟩, ⟨1, "vllm"⟩, ⟨2, "ollama"⟩] exSupport = .passthrough [⟨1, "vllm"⟩, ⟨2, "ollama"⟩] := by decide
+example : decideMode false [⟨0, "openai"⟩, ⟨1, "vllm"⟩] exSupport = .translate [⟨0, "openai"⟩, ⟨1, "vllm"⟩] := by decide
+example : decideMode true [⟨0, "openai"⟩, ⟨1, "declared-off"⟩] exSupport = .translate [⟨0, "openai"⟩, ⟨1, "declared-off"⟩] := by decide
 -- failover inside the subset: the preferred native endpoint refuses, the next native one serves; openai is never contacted
-example : ((run true genSupport (fun b => 0 :: b) true (fun l => l.head?)
+example : ((run true exSupport (fun b => 0 :: b) true (fun l => l.head?)
     (fun e => if e = 1 then .failBefore true else .ok ⟨200, [], []⟩) [⟨0, "openai"⟩, ⟨1, "vllm"⟩, ⟨2, "ollama"⟩] [7]).sent.map (·.ep)) = [1, 2] := by decide
+-- every native endpoint refuses: no fall-back to translation on the remaining endpoint
+example : ((run true exSupport (fun b => 0 :: b) true (fun l => l.head?)
+    (fun e => if e = 0 then .ok ⟨200, [], []⟩ else .failBefore true) [⟨0, "openai"⟩, ⟨1, "vllm"⟩, ⟨2, "ollama"⟩] [7]).result) = .exhausted := by decide
 example : SelectContract (fun l => l.head?) := by intro l e h; cases l <;> simp_all
 
 end Olla.Props.C14
